@@ -83,93 +83,93 @@ Lemma step_round_bs_space r hd sm nxt :
 Proof. destruct hd; destruct sm; reflexivity. Qed.
 
 (** * Items of an escaped word *)
-Definition item := (char * bool)%type.      (* character, written with a backslash? *)
-Definition render_item (i : item) : str := if snd i then [c_bs; fst i] else [fst i].
-Definition render_items (l : list item) : str := flat_map render_item l.
-Definition item_text (l : list item) : str := map fst l.
+Definition eitem := (char * bool)%type.      (* character, written with a backslash? *)
+Definition render_eitem (i : eitem) : str := if snd i then [c_bs; fst i] else [fst i].
+Definition render_eitems (l : list eitem) : str := flat_map render_eitem l.
+Definition eitem_text (l : list eitem) : str := map fst l.
 (** an unescaped character must be ordinary for the tokenizer; an escaped one is arbitrary *)
-Definition wf_item (i : item) : bool := snd i || cls_eqb (classify (fst i)) KOther.
+Definition wf_eitem (i : eitem) : bool := snd i || cls_eqb (classify (fst i)) KOther.
 
-Definition sm_item (sp : tag) (sm : tag) (i : item) : tag := if snd i then sm_upd sp sm (fst i) else sm.
-Definition sm_after (sp sm : tag) (l : list item) : tag := fold_left (sm_item sp) l sm.
+Definition sm_eitem (sp : tag) (sm : tag) (i : eitem) : tag := if snd i then sm_upd sp sm (fst i) else sm.
+Definition sm_after (sp sm : tag) (l : list eitem) : tag := fold_left (sm_eitem sp) l sm.
 
-Lemma loop_items l : forallb wf_item l = true -> forall r sp tk hd sm rest,
+Lemma loop_eitems l : forallb wf_eitem l = true -> forall r sp tk hd sm rest,
   nb_tag sp ->
-  loop (st_ew r sp tk false hd sm) (render_items l ++ rest) =
-  loop (st_ew r sp (rev (item_text l) ++ tk) false hd (sm_after sp sm l)) rest.
+  loop (st_ew r sp tk false hd sm) (render_eitems l ++ rest) =
+  loop (st_ew r sp (rev (eitem_text l) ++ tk) false hd (sm_after sp sm l)) rest.
 Proof.
   induction l as [|[c e] l IH]; intros Hwf r sp tk hd sm rest Hsp; [reflexivity|].
   cbn [forallb] in Hwf. apply andb_true_iff in Hwf as [Hi Hl].
-  unfold render_items. cbn [flat_map]. fold (render_items l). rewrite <- app_assoc.
-  unfold render_item at 1. cbn [fst snd]. destruct e.
+  unfold render_eitems. cbn [flat_map]. fold (render_eitems l). rewrite <- app_assoc.
+  unfold render_eitem at 1. cbn [fst snd]. destruct e.
   - cbn [app]. rewrite loop_cons, (step_ew_bs r sp tk hd sm _ Hsp).
     rewrite loop_cons, (step_ew_esc r sp tk hd sm c _ Hsp).
-    rewrite (IH Hl) by exact Hsp. cbn [item_text map rev fst sm_after fold_left sm_item snd].
+    rewrite (IH Hl) by exact Hsp. cbn [eitem_text map rev fst sm_after fold_left sm_eitem snd].
     now rewrite <- app_assoc.
-  - unfold wf_item in Hi. cbn [fst snd orb] in Hi. apply cls_eqb_eq in Hi.
+  - unfold wf_eitem in Hi. cbn [fst snd orb] in Hi. apply cls_eqb_eq in Hi.
     cbn [app]. rewrite loop_cons, (step_ew_plain r sp tk hd sm c _ Hsp Hi).
-    rewrite (IH Hl) by exact Hsp. cbn [item_text map rev fst sm_after fold_left sm_item snd].
+    rewrite (IH Hl) by exact Hsp. cbn [eitem_text map rev fst sm_after fold_left sm_eitem snd].
     now rewrite <- app_assoc.
 Qed.
 
 (** * The tag of the token *)
-Definition has_esc_angle (l : list item) : bool := existsb (fun i => snd i && is_angle (fst i)) l.
-Definition starts_bar_dollar (l : list item) : bool :=
+Definition has_esc_angle (l : list eitem) : bool := existsb (fun i => snd i && is_angle (fst i)) l.
+Definition starts_bar_dollar (l : list eitem) : bool :=
   match l with i :: _ => snd i && is_bar_dollar (fst i) | [] => false end.
-Definition items_tag (l : list item) : tag :=
+Definition eitems_tag (l : list eitem) : tag :=
   if starts_bar_dollar l then TBs else if has_esc_angle l then TSq else TNone.
 
 Lemma sm_after_sq sp l : sm_after sp TSq l = TSq.
 Proof.
-  induction l as [|[c e] l IH]; [reflexivity|]. cbn [sm_after fold_left]. unfold sm_item at 2. cbn [fst snd].
+  induction l as [|[c e] l IH]; [reflexivity|]. cbn [sm_after fold_left]. unfold sm_eitem at 2. cbn [fst snd].
   destruct e; [|exact IH]. unfold sm_upd. destruct (tag_eqb sp TNone && is_angle c); exact IH.
 Qed.
 
 Lemma sm_after_none l : sm_after TNone TNone l = if has_esc_angle l then TSq else TNone.
 Proof.
   induction l as [|[c e] l IH]; [reflexivity|]. cbn [sm_after fold_left has_esc_angle existsb fst snd].
-  unfold sm_item at 2. cbn [fst snd]. destruct e; cbn [andb orb]; [|exact IH].
+  unfold sm_eitem at 2. cbn [fst snd]. destruct e; cbn [andb orb]; [|exact IH].
   unfold sm_upd. cbn [tag_eqb andb]. destruct (is_angle c); cbn [orb]; [apply sm_after_sq|exact IH].
 Qed.
 
 Lemma sm_after_bs sm l : sm_after TBs sm l = sm.
 Proof.
   revert sm; induction l as [|[c e] l IH]; intros sm; [reflexivity|]. cbn [sm_after fold_left].
-  unfold sm_item at 2. cbn [fst snd]. destruct e; [|apply IH]. unfold sm_upd. cbn [tag_eqb andb]. apply IH.
+  unfold sm_eitem at 2. cbn [fst snd]. destruct e; [|apply IH]. unfold sm_upd. cbn [tag_eqb andb]. apply IH.
 Qed.
 
 Lemma sm_none_or_sq l : sm_after TNone TNone l = TNone \/ sm_after TNone TNone l = TSq.
 Proof. rewrite sm_after_none. destruct (has_esc_angle l); auto. Qed.
 
 (** the escaped word from the start of a round up to the state after its last character *)
-Lemma loop_word_items l : l <> [] -> forallb wf_item l = true -> forall r hd rest,
+Lemma loop_word_eitems l : l <> [] -> forallb wf_eitem l = true -> forall r hd rest,
   exists sp sm, nb_tag sp /\
-    loop (st_round r hd) (render_items l ++ rest) = loop (st_ew r sp (rev (item_text l)) false hd sm) rest /\
-    (sp = TBs -> items_tag l = TBs) /\
-    (sp = TNone -> items_tag l = sm /\ (sm = TNone \/ sm = TSq)).
+    loop (st_round r hd) (render_eitems l ++ rest) = loop (st_ew r sp (rev (eitem_text l)) false hd sm) rest /\
+    (sp = TBs -> eitems_tag l = TBs) /\
+    (sp = TNone -> eitems_tag l = sm /\ (sm = TNone \/ sm = TSq)).
 Proof.
   destruct l as [|[c e] l]; [congruence|]. intros _ Hwf r hd rest.
   cbn [forallb] in Hwf. apply andb_true_iff in Hwf as [Hi Hl].
-  unfold render_items. cbn [flat_map]. fold (render_items l). rewrite <- app_assoc.
-  unfold render_item at 1. cbn [fst snd]. destruct e.
+  unfold render_eitems. cbn [flat_map]. fold (render_eitems l). rewrite <- app_assoc.
+  unfold render_eitem at 1. cbn [fst snd]. destruct e.
   - cbn [app]. rewrite loop_cons, step_round_bs, loop_cons, step_rbs.
     destruct (is_bar_dollar c) eqn:Hbd.
     + exists TBs, TNone. split; [now right|]. split.
-      * rewrite (loop_items l Hl) by now right. rewrite sm_after_bs.
-        cbn [item_text map rev fst]. reflexivity.
-      * split; [|discriminate]. intros _. unfold items_tag, starts_bar_dollar. cbn [fst snd andb]. now rewrite Hbd.
+      * rewrite (loop_eitems l Hl) by now right. rewrite sm_after_bs.
+        cbn [eitem_text map rev fst]. reflexivity.
+      * split; [|discriminate]. intros _. unfold eitems_tag, starts_bar_dollar. cbn [fst snd andb]. now rewrite Hbd.
     + exists TNone, (sm_after TNone (sm_upd TNone TNone c) l). split; [now left|]. split.
-      * rewrite (loop_items l Hl) by now left. cbn [item_text map rev fst]. reflexivity.
+      * rewrite (loop_eitems l Hl) by now left. cbn [eitem_text map rev fst]. reflexivity.
       * split; [discriminate|]. intros _.
         assert (E : sm_after TNone (sm_upd TNone TNone c) l = sm_after TNone TNone ((c, true) :: l)) by reflexivity.
         rewrite E. split; [|apply sm_none_or_sq].
-        unfold items_tag, starts_bar_dollar. cbn [fst snd andb]. rewrite Hbd. now rewrite sm_after_none.
-  - unfold wf_item in Hi. cbn [fst snd orb] in Hi. apply cls_eqb_eq in Hi.
+        unfold eitems_tag, starts_bar_dollar. cbn [fst snd andb]. rewrite Hbd. now rewrite sm_after_none.
+  - unfold wf_eitem in Hi. cbn [fst snd orb] in Hi. apply cls_eqb_eq in Hi.
     cbn [app]. rewrite loop_cons, (step_round_plain r hd c _ Hi), st_word_ew.
     exists TNone, (sm_after TNone TNone l). split; [now left|]. split.
-    + rewrite (loop_items l Hl) by now left. cbn [item_text map rev fst]. reflexivity.
+    + rewrite (loop_eitems l Hl) by now left. cbn [eitem_text map rev fst]. reflexivity.
     + split; [discriminate|]. intros _. split; [|apply sm_none_or_sq].
-      unfold items_tag, starts_bar_dollar. cbn [fst snd andb]. rewrite sm_after_none.
+      unfold eitems_tag, starts_bar_dollar. cbn [fst snd andb]. rewrite sm_after_none.
       unfold has_esc_angle. cbn [existsb fst snd andb orb]. reflexivity.
 Qed.
 
@@ -194,10 +194,10 @@ Proof.
   cbn [spaces repeat]. rewrite loop_cons, step_round_bs_space. exact IH.
 Qed.
 
-Theorem parse_line_escaped_items cmd (l : list item) n :
+Theorem parse_line_escaped_eitems cmd (l : list eitem) n :
   plain_word cmd = true -> forallb arith_body cmd = false ->
-  l <> [] -> forallb wf_item l = true ->
-  parse_line (cmd ++ c_space :: render_items l ++ spaces n) = [(TNone, cmd); (items_tag l, item_text l)].
+  l <> [] -> forallb wf_eitem l = true ->
+  parse_line (cmd ++ c_space :: render_eitems l ++ spaces n) = [(TNone, cmd); (eitems_tag l, eitem_text l)].
 Proof.
   intros Hw Hna Hne Hwf. unfold parse_line. rewrite (not_arith _ _ Hna).
   apply andb_true_iff in Hw as [Hne' Hall]. destruct cmd as [|c cmd]; [discriminate|].
@@ -209,10 +209,10 @@ Proof.
     apply loop_word; [|exact Hall]. cbn. cbn in Hall. apply andb_true_iff in Hall as [H1 _]. now rewrite H1. }
   rewrite E. rewrite loop_cons, step_word_space.
   match goal with |- context [loop (st_round ?r0 false) _] =>
-    destruct (loop_word_items l Hne Hwf r0 false (spaces n)) as (sp & sm & Hsp & Eq & Hbs & Hnone) end.
+    destruct (loop_word_eitems l Hne Hwf r0 false (spaces n)) as (sp & sm & Hsp & Eq & Hbs & Hnone) end.
   rewrite Eq. rewrite rev_app_distr, rev_involutive. cbn [rev app].
-  assert (Htk : rev (item_text l) <> []).
-  { destruct l as [|i l']; [congruence|]. cbn [item_text map rev]. destruct (rev (map fst l')); discriminate. }
+  assert (Htk : rev (eitem_text l) <> []).
+  { destruct l as [|i l']; [congruence|]. cbn [eitem_text map rev]. destruct (rev (map fst l')); discriminate. }
   destruct n as [|n].
   - cbn [spaces repeat loop]. rewrite finish_ew; [|exact Htk|exact Hsp|intros E0; now destruct (Hnone E0)].
     rewrite rev_involutive. cbn [rev app]. destruct Hsp as [-> | ->].
@@ -233,33 +233,33 @@ Section EscapeBy.
   Hypothesis cls_covers : forall c, cls c = false -> classify c = KOther.
 
   Definition escape_text (s : str) : str := flat_map (fun c => if cls c then [c_bs; c] else [c]) s.
-  Definition items_of (s : str) : list item := map (fun c => (c, cls c)) s.
+  Definition eitems_of (s : str) : list eitem := map (fun c => (c, cls c)) s.
 
-  Lemma render_items_of s : render_items (items_of s) = escape_text s.
+  Lemma render_eitems_of s : render_eitems (eitems_of s) = escape_text s.
   Proof.
-    induction s as [|c s IH]; [reflexivity|]. unfold render_items, items_of, escape_text in *.
-    cbn [map flat_map]. rewrite IH. unfold render_item. cbn [fst snd]. reflexivity.
+    induction s as [|c s IH]; [reflexivity|]. unfold render_eitems, eitems_of, escape_text in *.
+    cbn [map flat_map]. rewrite IH. unfold render_eitem. cbn [fst snd]. reflexivity.
   Qed.
-  Lemma item_text_of s : item_text (items_of s) = s.
-  Proof. unfold item_text, items_of. rewrite map_map. cbn [fst]. apply map_id. Qed.
-  Lemma wf_items_of s : forallb wf_item (items_of s) = true.
+  Lemma eitem_text_of s : eitem_text (eitems_of s) = s.
+  Proof. unfold eitem_text, eitems_of. rewrite map_map. cbn [fst]. apply map_id. Qed.
+  Lemma wf_eitems_of s : forallb wf_eitem (eitems_of s) = true.
   Proof.
-    induction s as [|c s IH]; [reflexivity|]. cbn [items_of map forallb]. fold (items_of s). rewrite IH, andb_true_r.
-    unfold wf_item. cbn [fst snd]. destruct (cls c) eqn:E; [reflexivity|].
+    induction s as [|c s IH]; [reflexivity|]. cbn [eitems_of map forallb]. fold (eitems_of s). rewrite IH, andb_true_r.
+    unfold wf_eitem. cbn [fst snd]. destruct (cls c) eqn:E; [reflexivity|].
     rewrite (cls_covers _ E). reflexivity.
   Qed.
 
   (** tag of the token that an escaped text becomes *)
-  Definition text_tag (s : str) : tag := items_tag (items_of s).
+  Definition text_tag (s : str) : tag := eitems_tag (eitems_of s).
 
   Theorem parse_line_escaped cmd name n :
     plain_word cmd = true -> forallb arith_body cmd = false -> name <> [] ->
     parse_line (cmd ++ c_space :: escape_text name ++ spaces n) = [(TNone, cmd); (text_tag name, name)].
   Proof.
-    intros Hw Hna Hne. rewrite <- render_items_of.
-    rewrite parse_line_escaped_items; try assumption.
-    - now rewrite item_text_of.
+    intros Hw Hna Hne. rewrite <- render_eitems_of.
+    rewrite parse_line_escaped_eitems; try assumption.
+    - now rewrite eitem_text_of.
     - destruct name; [congruence|discriminate].
-    - apply wf_items_of.
+    - apply wf_eitems_of.
   Qed.
 End EscapeBy.
